@@ -20,7 +20,8 @@ func runSelftest() int {
 	vdir := verifDir()
 	fm := map[string]string{
 		"zzverif/rt/rt.go":       filepath.Join(vdir, "rt", "rt.go"),
-		"zzverif/selftest/st.go": filepath.Join(vdir, "selftest", "st.go"),
+		"zzverif/selftest/st.go":      filepath.Join(vdir, "selftest", "st.go"),
+		"zzverif/selftest/vectors.go": filepath.Join(vdir, "selftest", "vectors.go"),
 	}
 	ov, err := buildOverlay(repoDir(), fm)
 	if err != nil {
@@ -52,6 +53,16 @@ func runSelftest() int {
 			bad++
 		}
 		fmt.Printf("selftest %s: %s (violation=%v expected=%v paths=%d unsupported=%v engine=%v bounds=%v)\n", c.fn, status, got, c.violation, st.Paths, st.Unsupported, st.EngineErrors, st.BoundHits)
+	}
+	// differential corpus: engine (concrete mode) against the natively compiled code
+	spec := &Spec{Package: "github.com/lmorg/murex/zzverif/selftest", Files: map[string]string{
+		"zzverif/selftest/st.go": "st.go", "zzverif/selftest/vectors.go": "vectors.go"}}
+	nv, err := validateVectors(vdir, spec, filepath.Join(vdir, "selftest"), HarnessSpec{VectorsFunc: "VerifSelfVectors"}, ld)
+	if err != nil {
+		fmt.Println("selftest vectors: FAILED:", err)
+		bad++
+	} else {
+		fmt.Printf("selftest vectors: ok (%d lines identical in the engine and natively)\n", nv)
 	}
 	if bad > 0 {
 		return 1
